@@ -134,6 +134,20 @@ func oracleC18(f *sessionFam, w *World, res *Result) []Violation {
 				}
 			}
 		}
+		// a hand-off that took place before the application had registered its session-level listeners (a Send
+		// racing the connection listener) is seen at the server level only
+		for _, e := range ssf {
+			if e.Seq > attached {
+				break
+			}
+			for _, p := range e.P {
+				if strings.HasPrefix(p, "message|") {
+					if k := strings.TrimPrefix(p, "message|"); flushedAt[k] == 0 {
+						flushedAt[k] = e.Seq
+					}
+				}
+			}
+		}
 		for _, m := range w.sent[a] {
 			k := kindPrefix(m.Binary) + string(m.Data)
 			if m.Seq < attached {
